@@ -138,7 +138,7 @@ func genDef(r *rand.Rand, self string, existing []string, convs []string, nStrea
 	}
 	if depth <= 0 || r.IntN(3) == 0 {
 		a := atom()
-		if r.IntN(5) == 0 && !strings.HasPrefix(a, "@") {
+		if r.IntN(5) == 0 && !strings.HasPrefix(a, "@") && !strings.HasPrefix(a, "protocol") {
 			return "-" + a
 		}
 		return a
